@@ -93,13 +93,14 @@ func (o Op) String() string {
 
 // Step is one step of a history.
 type Step struct {
-	K       string `json:"k"`                 // tx, view, reopen, merge, backup, crash
+	K       string `json:"k"`                 // tx, view, reopen, merge, backup, crash, clock
 	Ops     []Op   `json:"ops,omitempty"`     // for tx/view
 	End     string `json:"end,omitempty"`     // commit (default), rollback, fnerr
 	Managed bool   `json:"managed,omitempty"` // use db.Update/db.View
 	FailAt  int    `json:"failat,omitempty"`  // for fnerr: number of ops executed before returning the error
 	Fault   *Fault `json:"fault,omitempty"`
 	After   []Op   `json:"after,omitempty"` // calls made on the transaction after it finished
+	T       int64  `json:"t,omitempty"`     // for clock: the virtual time (Unix seconds) the expiry test sees from here on
 }
 
 // Fault describes an injected I/O fault inside the Commit of a step.
